@@ -179,17 +179,22 @@ func (vm *VM) Run(globals Object, args ...Object) (Object, error) {
 }
 
 func (vm *VM) run() (rerun bool) {
+	panicking := true
 	defer func() {
-		if vm.noPanic {
-			if r := recover(); r != nil {
-				vm.handlePanic(r)
-				rerun = vm.err == nil
-				return
+		if vm.noPanic && panicking {
+			r := recover()
+			if r == nil {
+				// panic(nil), recover returns nil for it before Go 1.21
+				r = errors.New("panic called with nil argument")
 			}
+			vm.handlePanic(r)
+			rerun = vm.err == nil
+			return
 		}
 		vm.clearCurrentFrame()
 	}()
 	vm.loop()
+	panicking = false
 	return
 }
 
